@@ -23,3 +23,29 @@ func HarnessC11Precedence() {
 	vAssert(vEqStr(out, want), "builtin-takes-precedence-over-custom-function")
 	vAssert(!called, "custom-function-with-builtin-name-is-never-called")
 }
+
+// HarnessC11PrecedenceErr: a built-in called with arguments it rejects reports its error even when a custom function
+// of the same name is registered for that receiver type; the custom function is never called.
+func HarnessC11PrecedenceErr() {
+	called := false
+	k := vChoice("builtin", 4)
+	switch k {
+	case 0:
+		RegisterStrFunc("truncate", func(s string, args ...any) string { called = true; return "CUSTOM" })
+	case 1:
+		RegisterArrFunc("slice", func(a []any, args ...any) []any { called = true; return []any{"CUSTOM"} })
+	case 2:
+		RegisterBoolFunc("then", func(b bool, args ...any) bool { called = true; return true })
+	default:
+		RegisterIntFunc("decimal", func(i int, args ...any) int { called = true; return 77 })
+	}
+	bad := []string{"{{ \"hello\".truncate(\"2\") }}", "{{ [1, 2, 3].slice(\"a\") }}", "{{ true.then() }}", "{{ 5.decimal(1) }}"}[k]
+	good := []string{"{{ \"hello\".truncate(2) }}", "{{ [1, 2, 3].slice(1) }}", "{{ true.then(\"y\") }}", "{{ 5.decimal() }}"}[k]
+	goodOut := []string{"he...", "2, 3", "y", "5.00"}[k]
+	out, err := EvaluateString(bad, nil)
+	vCover("rendered")
+	vAssert(err != nil && out == "", "builtin-rejecting-its-arguments-is-an-error")
+	out2, err2 := EvaluateString(good, nil)
+	vAssert(err2 == nil && out2 == goodOut, "builtin-takes-precedence-over-custom-function")
+	vAssert(!called, "custom-function-with-builtin-name-is-never-called")
+}
